@@ -10,9 +10,12 @@ theorem repair_limit_tie : Generated.C18.repairSearchLimit = C18.searchLimit := 
 theorem query_limit_tie : Generated.C18.queryDefaultLimit = C18.searchLimit := rfl
 /-- `shard.repair` refuses an incoming document of the same revision unless its delete time is greater. -/
 theorem repair_tiebreak_tie : Generated.C18.repairKeepsLaterTombstone = C18.repairKeepsLaterTombstone := rfl
+/-- `buildNotDeletedDocIDList` lists the id being replaced too (two documents of one id can be stored; the model
+    mirrors it in `repairBatch`). -/
 theorem repair_skip_tie : Generated.C18.repairSkipsReplacedDoc = C18.repairSkipsReplacedDoc := rfl
 /-- the liaison orders states of a property as `shard.repair` does. -/
 theorem liaison_order_tie : Generated.C18.liaisonUsesNewerThan = C18.liaisonUsesNewerThan := rfl
+theorem delete_lookup_tie : Generated.C18.deleteLookupLimitIsIdCount = true := rfl
 theorem doc_id_tie : Generated.C18.docIdIsEntityAndRevision = true := rfl
 
 end Banyan.Tie.C18
